@@ -55,7 +55,8 @@ INCLUDES = {
     # a completion is attributed to its command only if every command gets exactly one response
     "C14": [("C03", ["C03.reply-effects"]), ("C11", ["C11.gate"])] + WIRE,     # incl. the handshake: exactly one reply to the login
     # what the client decodes depends on the announced column (C09) and on where the value sits in the row (bitmap length, header)
-    "C15": [("C09", ALL), ("C07", ["C07.bitmap-arith", "C07.row-prefix"])] + WIRE,   # a fixed-width integer behind a 16 MiB cell sits where the framing puts it
+    # ... and, in the text protocol, on the decimal text being the value's own `{}` rendering (C06.int-text: the integer part of C06.text-grammar)
+    "C15": [("C09", ALL), ("C07", ["C07.bitmap-arith", "C07.row-prefix"]), ("C06", ["C06.int-text"])] + WIRE,   # a fixed-width integer behind a 16 MiB cell sits where the framing puts it
     # per-statement state: the registry entry's life cycle (C10) and the parsers that delimit the parameter block / long data
     # ... the reassembled payload (C01) and the decoder honouring the (type, unsigned) pair it is given (C08.value-layouts)
     "C16": [("C10", ALL), PARSERS, ("C01", ALL), ("C08", ["C08.value-layouts"])],
